@@ -49,6 +49,8 @@ type replGen struct {
 	typedefs []string // accepted typedefs (all include Int)
 	ghostTD  []string // typedefs only rejected inputs tried to define
 	ghostK   []string // constants only rejected inputs tried to define
+	mixins   []string // accepted mixins (each has a method mx<name>: Int)
+	mixed    []string // "Class:mixin method" pairs of classes that include a mixin
 }
 
 func (g *replGen) fresh(prefix string) string {
@@ -88,16 +90,44 @@ var replThemes = map[string][]int{
 	"ghosts":   {23, 23, 24, 25, 26, 27, 28, 17},
 	"closures": {12, 13, 44, 44, 45, 45, 46, 46, 15, 16, 19, 20, 28},
 	"typedefs": {47, 47, 48, 48, 49, 49, 50, 50, 51, 10, 17, 18},
+	"mixins":   {52, 53, 53, 54, 54, 55, 55, 24, 25, 26, 28, 17},
 }
 
 func (g *replGen) next() string {
 	pool := g.pool
 	if len(pool) == 0 {
-		for k := 0; k < 52; k++ {
+		for k := 0; k < 56; k++ {
 			pool = append(pool, k)
 		}
 	}
 	switch k := pool[g.r.Intn(len(pool))]; {
+	case k == 52:
+		mx := g.fresh("Mx")
+		g.mixins = append(g.mixins, mx)
+		return fmt.Sprintf("mixin %s\n  def via_%s: Int\n    %d\n  end\nend", mx, strings.ToLower(mx), g.r.Range(10, 90))
+	case k == 53:
+		// a class that includes a mixin
+		if len(g.mixins) > 0 {
+			mx := Pick(g.r, g.mixins)
+			c := g.fresh("Km")
+			g.mixed = append(g.mixed, c+":via_"+strings.ToLower(mx))
+			return fmt.Sprintf("class %s\n  include %s\n  def own: Int\n    %d\n  end\nend", c, mx, g.r.Range(1, 9))
+		}
+		return fmt.Sprintf("println \"T:%d:lit\"", g.n)
+	case k == 54:
+		// the class is reopened (after whatever happened in between) and gets another method
+		if len(g.mixed) > 0 {
+			c := strings.SplitN(Pick(g.r, g.mixed), ":", 2)[0]
+			return fmt.Sprintf("class %s\n  def extra%d: Int\n    %d\n  end\nend", c, g.n, g.r.Range(1, 9))
+		}
+		return fmt.Sprintf("println \"T:%d:lit\"", g.n)
+	case k == 55:
+		// the mixin's method through an instance of the including class
+		if len(g.mixed) > 0 {
+			pr := strings.SplitN(Pick(g.r, g.mixed), ":", 2)
+			return fmt.Sprintf("println \"T:%d:${%s().%s + %s().own}\"", g.n, pr[0], pr[1], pr[0])
+		}
+		return fmt.Sprintf("println \"T:%d:lit\"", g.n)
 	case k == 47:
 		// a top-level typedef (keeps the checker's scope copies alive across inputs)
 		td := g.fresh("Td")
@@ -324,7 +354,7 @@ func (*c27Engine) Generate(seed uint64, tier string) *Case {
 	r := NewRand(seed)
 	g := &replGen{r: r}
 	if r.Chance(0.8) {
-		names := []string{"methods", "classes", "values", "ivars", "circular", "throwers", "using", "ghosts", "closures", "typedefs", "typedefs"}
+		names := []string{"methods", "classes", "values", "ivars", "circular", "throwers", "using", "ghosts", "closures", "typedefs", "typedefs", "mixins", "mixins"}
 		for i := 0; i < r.Range(1, 3); i++ {
 			g.pool = append(g.pool, replThemes[Pick(r, names)]...)
 		}
@@ -349,7 +379,10 @@ func (*c27Engine) Generate(seed uint64, tier string) *Case {
 			})
 		}
 		var script []string
-		switch r.Intn(10) {
+		switch r.Intn(11) {
+		case 10:
+			// a class with a mixin is reopened after a rejected input
+			script = []string{"mixin Smx\n  def sgreet: Int\n    7\n  end\nend", "class Spm\n  include Smx\n  def sown: Int\n    1\n  end\nend", "println \"T:s16:${Spm().sgreet}\"", invalid(), "class Spm\n  def sextra: Int\n    2\n  end\nend", "println \"T:s17:${Spm().sgreet + Spm().sextra}\""}
 		case 0:
 			script = []string{"module Foo\n  def ua: Int\n    1\n  end\n  def ub: Int\n    2\n  end\nend", "using Foo::ua", "println \"T:s1:${ua()}\"", invalid(), "using Foo::ub", "println \"T:s2:${ub()}\""}
 		case 1:
